@@ -240,6 +240,10 @@ def run(ctx):
     # the rollback re-applies the pruned records in append order
     from . import c07
     shared(c07.r4_rollback_order, "C07-R4", "C09-R6")
+    # "a further round of syncs converges": the merge step gives up local records only
+    # behind local ⊆ remote and then adopts the REMOTE side
+    from . import c05
+    shared(c05.r1_nothing_dropped, "C05-R1", "C09-R7")
     if ctx.tier == "thorough" and ctx.config == "workspace":
         from .. import witness
         witness.run(ctx, 'C09-W', 'mutating server helpers need the write guard (type level)', {'PatchNeedsWriteGuard': 'event_patch(req, &mut *read_guard)', 'SyncNeedsWriteGuard': 'sync_account(packet, &mut *read_guard)'})
